@@ -593,6 +593,31 @@ func c13a(c *Ctx) {
 		}
 		for _, st := range storesToField(fn, s.pkg, s.typ, s.field) {
 			v := c.term(fn, st.Val)
+			// a token field of a record whose Literal is set afterwards, in place
+			// (`entry.Condition = tok; entry.Condition.Literal = joined`)
+			if !strings.Contains(v, s.want) && strings.HasPrefix(s.want, "Literal=") {
+				if fa, ok := st.Addr.(*ssa.FieldAddr); ok {
+					if rec, ok := fa.X.(*ssa.Alloc); ok && rec.Referrers() != nil {
+						for _, r := range *rec.Referrers() {
+							fa2, ok := r.(*ssa.FieldAddr)
+							if !ok || fa2.Field != fa.Field || fa2.Referrers() == nil {
+								continue
+							}
+							for _, r2 := range *fa2.Referrers() {
+								fa3, ok := r2.(*ssa.FieldAddr)
+								if !ok || fieldName(fa3.X.Type(), fa3.Field) != "Literal" || fa3.Referrers() == nil {
+									continue
+								}
+								for _, r3 := range *fa3.Referrers() {
+									if st3, ok := r3.(*ssa.Store); ok && st3.Addr == ssa.Value(fa3) && canReach(st, st3) {
+										v = "Literal=" + c.term(fn, st3.Val)
+									}
+								}
+							}
+						}
+					}
+				}
+			}
 			if !strings.Contains(v, s.want) {
 				// a value handed back by a helper: every origin must be the joined result
 				src := st.Val
